@@ -7,6 +7,27 @@ use crate::refmodel::Kind;
 use crate::tape::Tape;
 use std::collections::BTreeMap;
 
+/// `Own`: the driver judges its own property; a failing honest step is a failed precondition (exit 2).
+/// `Honest`: the driver is run on behalf of C01: only failures of honest, matched behaviour are violations.
+#[derive(Clone, Copy, PartialEq, Eq, Debug)]
+pub enum Mode {
+    Own,
+    Honest,
+}
+/// report the failure of an honest / matched operation according to the mode
+pub fn honest_fail(cx: &mut crate::fw::Cx, mode: Mode, key: &str, what: String) {
+    match mode {
+        Mode::Own => cx.violate(&format!("honest-step/{}", key), what),
+        Mode::Honest => cx.violate(&format!("history/{}", key), what),
+    }
+}
+pub fn honest_fail_case(cx: &mut crate::fw::Cx, mode: Mode, key: &str, what: String, case: serde_json::Value) {
+    match mode {
+        Mode::Own => cx.violate_case(&format!("honest-step/{}", key), what, case),
+        Mode::Honest => cx.violate_case(&format!("history/{}", key), what, case),
+    }
+}
+
 pub fn all_apis() -> Vec<Api> {
     suites().into_iter().map(Api::new).collect()
 }
